@@ -1,4 +1,5 @@
 """helpers shared by the layout rules"""
+import re
 from .. import decode
 from ..ai.values import AdtVal, Choice, IntVal, ZERO
 
@@ -198,3 +199,89 @@ def tabulate(alternatives, atoms):
         else:
             table[N] = vals.pop()
     return table
+
+
+# ------------------------------------------------------------------------------------------- unsummarised callees
+_CRATE_TOK = re.compile(r"(?:^|[<(\[ ,&])(?:mut |dyn |impl )?([a-z_][a-z_0-9]*)::")
+
+
+def is_std_callee(name):
+    """every crate named in the (resolved) callee path is core / alloc / std"""
+    toks = set(_CRATE_TOK.findall(name))
+    return bool(toks) and toks <= {"core", "alloc", "std"}
+
+
+def unsummarised_policy(rep, names, what):
+    """A callee without a transfer function is treated soundly for data flow (unknown result, everything reachable through its
+    `&mut` arguments forgotten), so rules that need the forgotten facts report their own violation. Standard-library callees outside the
+    may-panic list (clients.MAY_PANIC) are assumed total and are only listed; a callee from any other crate (deku, ...) whose effect
+    is unknown makes the model of the decoder itself incomplete and is reported."""
+    names = sorted(set(names))
+    std = [n for n in names if is_std_callee(n)]
+    other = [n for n in names if not is_std_callee(n)]
+    if std:
+        rep.info("%s: standard-library callees without a transfer function (result unknown, &mut arguments forgotten, assumed not to panic): %s" % (what, std[:8]))
+        rep.extra.setdefault("std_callees_without_summary", [])
+        rep.extra["std_callees_without_summary"] = sorted(set(rep.extra["std_callees_without_summary"]) | set(std))
+    if other:
+        rep.violation("AI", "unsummarised:%s" % other[0], "%s met callees outside the standard library that the analysis has no model for (the decoder model is incomplete): %s" % (what, other[:6]))
+
+
+# ------------------------------------------------------------------------------------------- enum code tables
+def enum_code_table(prog, adt):
+    """variant name -> set of field values selecting it, by interpreting the enum's own deku reader on symbolic bits.
+    Returns (nbits, table) or None when the enum has no context-free reader. A rejected value maps to '<rejected>'."""
+    from ..ai import entry
+    from ..ai.values import UNIT
+    from ..ai.pathcond import facts_atoms
+    rx = re.compile(r"^<%s as deku::DekuReader<'_>>::from_reader_with_ctx$" % re.escape(adt))
+    fns = [k for k in prog.fns if rx.match(k)]
+    if len(fns) != 1:
+        return None
+    ip, outs = entry.run_reader_fn(prog, fns[0], 14, 0, extra_args=[UNIT], merge_returns=False, max_seconds=30)
+    alts = []
+    for o in outs:
+        rv = o.retval
+        for d, v in (rv.alts if isinstance(rv, Choice) else [((), rv)]):
+            alts.append((tuple(o.pc.log) + tuple(d), v))
+    atoms = set()
+    for fc, _v in alts:
+        atoms |= facts_atoms(fc)
+    n = (max(atoms) + 1) if atoms else 0
+    tab = {}
+    for fc, v in alts:
+        name = "<rejected>"
+        if isinstance(v, AdtVal) and v.vname == "Ok" and isinstance(v.fields[0], AdtVal):
+            name = v.fields[0].vname
+        tab.setdefault(name, set()).update(decode.id_values(fc, range(n)))
+    return n, tab
+
+
+def enum_tables_rule(rep, prog, rule_id, adts, text=None):
+    from ..ref.enums import TABLES
+    rid = rep.rule(rule_id, text or "each enumeration's variants are selected by exactly the field values the standard assigns to that meaning (name -> codes table)")
+    n_ok = 0
+    for adt in adts:
+        nbits, want = TABLES[adt]
+        short = adt.rsplit("::", 1)[1]
+        if adt not in prog.adts:
+            rep.violation(rule_id, "anchor:%s" % short, "anchor missing: enum %s" % adt)
+            continue
+        got = enum_code_table(prog, adt)
+        if got is None:
+            rep.violation(rule_id, "anchor:%s:reader" % short, "enum %s has no context-free deku reader to interpret" % adt)
+            continue
+        gb, gt = got
+        n_ok += 1
+        rep.instance(rid, short, sample={"enum": short, "bits": gb, "table": {k: sorted(v)[:8] for k, v in sorted(gt.items())}} if n_ok <= 2 else None)
+        if gb != nbits:
+            rep.violation(rule_id, "%s:width" % short, "%s is read from %d bit(s), the field is %d bit(s) wide" % (short, gb, nbits))
+            continue
+        want2 = {k: v for k, v in want.items() if v}
+        if gt != want2:
+            diffs = []
+            for k in sorted(set(gt) | set(want2)):
+                if gt.get(k, set()) != want2.get(k, set()):
+                    diffs.append("%s: codes %s, standard %s" % (k, sorted(gt.get(k, set())), sorted(want2.get(k, set()))))
+            rep.violation(rule_id, "%s:table" % short, "%s: the code table differs from the standard's: %s" % (short, "; ".join(diffs[:4])))
+    rep.floor("enumerations tabulated (%s)" % rule_id, len(adts), n_ok)
